@@ -35,7 +35,7 @@ struct TaskRec {
 
 struct Query { int kind; int task; uint64_t call, ret; int result; };
 
-enum StepKind { S_EXEC, S_STATUS, S_CANCEL, S_SNAP, S_RELEASE, S_SPIN, S_QUIESCE, S_CLEANUP, S_REINIT, S_WAIT_STARTED, S_MARK_PARK_BEGIN, S_MARK_PARK_END };
+enum StepKind { S_EXEC, S_STATUS, S_CANCEL, S_SNAP, S_RELEASE, S_SPIN, S_QUIESCE, S_CLEANUP, S_REINIT, S_WAIT_STARTED, S_MARK_PARK_BEGIN, S_MARK_PARK_END, S_LOOP_GAP };
 struct Step { StepKind k; int a = 0, b = 0, c = 0, d = 0; };
 
 struct IPool {
@@ -91,6 +91,8 @@ struct Scenario {
     int round = 0;
     bool ready = false;
     bool quiesce_failed = false;
+    bool in_gap = false;        // the loop was stopped on purpose; the script continues after a pause with the loop not running
+    int gap_us = 0;
     int quiesce_polls = 0;
     std::vector<std::vector<int>> park_batches;
     std::vector<int> cur_park;
@@ -193,6 +195,15 @@ void run_step(Scenario *Sp) {
             } else S.quiesce_polls = 0;
             break;
         }
+        case S_LOOP_GAP: {
+            // stop the loop with the pool alive: workers keep finishing tasks and post their completion callbacks
+            // while no thread runs the loop; the script continues when the loop is run again
+            S.in_gap = true; S.gap_us = st.a;
+            ++S.pc;
+            S.loop->exitLoop();
+            vh::counter("loop_stopped_gaps");
+            return;
+        }
         case S_MARK_PARK_BEGIN: S.parking = true; S.cur_park.clear(); break;
         case S_MARK_PARK_END: S.parking = false; S.park_batches.push_back(S.cur_park); break;
         case S_QUIESCE: {
@@ -260,6 +271,12 @@ void gen(vh::Rng &r, Scenario &S, vh::Sig &sig) {
                 add(S_EXEC, (int)r.range(-2, 2), (int)r.below(3), -1, r.chance(1, 2)); ++ntasks_total;
                 if (r.chance(1, 6)) add(S_STATUS, ntasks_total - 1 - (int)r.below(std::min(ntasks_total, 3)));
             }
+            // cancel one or two of the parked tasks (not only the newest) while they are all still waiting
+            if (r.chance(1, 2)) {
+                int nc = 1 + (int)r.below(2);
+                for (int i = 0; i < nc; ++i) add(S_CANCEL, parked + 1 + (int)r.below(m));
+                vh::counter("cancels_inside_parked_window", nc);
+            }
             add(S_MARK_PARK_END);
             add(S_RELEASE, g); open_gates.clear();
         }
@@ -286,7 +303,7 @@ void gen(vh::Rng &r, Scenario &S, vh::Sig &sig) {
                 }
                 case 5: case 6: if (ntasks_total) add(S_STATUS, ntasks_total - 1 - (int)r.below(std::min(ntasks_total, 4))); break;
                 case 7: if (ntasks_total) add(S_CANCEL, ntasks_total - 1 - (int)r.below(std::min(ntasks_total, 4))); break;
-                case 8: add(S_SNAP); break;
+                case 8: if (r.chance(1, 4)) { static const int gp[] = {0, 50, 300, 1500}; add(S_LOOP_GAP, r.pick(gp)); } else add(S_SNAP); break;
                 case 9: { static const int sp[] = {1, 5, 30, 100, 1300, 2000}; add(S_SPIN, r.pick(sp)); break; }
                 case 10: if (!open_gates.empty()) { size_t k = r.below(open_gates.size()); add(S_RELEASE, open_gates[k]); open_gates.erase(open_gates.begin() + k); } break;
                 case 11: if (ntasks_total) add(S_STATUS, (int)r.below(ntasks_total)); break;
@@ -406,6 +423,12 @@ void one_case(uint64_t idx, vh::Rng &r) {
     if (!S.ready) { vh::viol("api/initialize-failed", vh::fmt("initialize(%d,%d) returned false", S.mn, S.mx)); }
     schedule(&S);
     loop->runLoop();
+    while (S.in_gap) {
+        S.in_gap = false;
+        vc::sleep_us(S.gap_us);
+        schedule(&S);
+        loop->runLoop();
+    }
     bool nontrivial = false;
     check_history(S, nontrivial);
     pool.reset();
